@@ -23,6 +23,9 @@ LEX = {
 }
 
 
+SPECIAL_EN = [',', 'S[ng]\\NP', 'S[dcl]/S[dcl]', 'conj', 'NP\\NP', 'LRB', 'S[dcl]', 'S[em]\\S[em]', ';', 'S[pss]\\NP']
+
+
 def unary_table(lang):
     from depccg.cat import Category
     rules = ground.load_jsonnet(ground.MODELS + '/unary_rules.%s.jsonnet' % lang)['unary_rules']
@@ -68,7 +71,7 @@ def gen_derivation(d, lang, n, nlex, tokfn=None):
     from depccg.grammar import en, ja
     g = en if lang == 'en' else ja
     ut = unary_table(lang)
-    lex = [Category.parse(c) for c in LEX[lang][:nlex]]
+    lex = [Category.parse(c) for c in (SPECIAL_EN if nlex == 'special' else LEX[lang][:nlex])]
     nodes = []
     for i in range(n):
         c = d.pick('lex%d' % i, lex)
